@@ -578,6 +578,8 @@ func (e *Exec) evalAppend(st *State, call *ast.CallExpr) Term {
 		na := e.Ctx.Fresh("apparr", ArraySort(SInt, e.S.sliceElem(s.Sort)))
 		e.Ctx.Assume(st.PC, Term{fmt.Sprintf("(forall ((i Int)) (! (= (select %s i) (ite (< i %s) (select %s i) (select %s (- i %s)))) :pattern ((select %s i))))", na.S, ln.S, e.S.SlArr(s).S, e.S.SlArr(o).S, ln.S, na.S), SBool})
 		nl := e.Ctx.Define("applen", Add(ln, e.S.SlLen(o)))
+		// appending onto an empty slice yields an element-wise copy of the operand: a rearrangement of it
+		e.Ctx.Assume(st.PC, Implies(Eq(ln, Int(0)), e.permPred(na, e.S.SlArr(o), e.S.SlLen(o))))
 		// append(nil, empty...) keeps nil
 		return e.S.MkSlice(s.Sort, na, nl, And(e.S.SlNil(s), Eq(e.S.SlLen(o), Int(0))))
 	}
